@@ -410,8 +410,17 @@ Definition check_self_parent (st : hg) (e : event) : ins_result :=
   | None => InsSelfParentOther                               (* UnknownParticipant *)
   | Some p =>
     match pidx_last p with
-    | None => if e_sp e =? -1 then InsOk else InsSelfParentOther      (* Empty *)
-    | Some l => if e_sp e =? l then InsOk else InsSelfParentNormal
+    | None =>                                                         (* Empty *)
+      if e_sp e =? -1 then (if e_index e =? 0 then InsOk else InsSelfParentOther)
+      else InsSelfParentOther
+    | Some l =>
+      if e_sp e =? l then
+        (* the index must extend the creator's chain by exactly one *)
+        match get_event st l with
+        | None => InsSelfParentOther
+        | Some spe => if e_index e =? e_index spe.(ev_e) + 1 then InsOk else InsSelfParentOther
+        end
+      else InsSelfParentNormal
     end
   end.
 
@@ -487,23 +496,26 @@ Definition sig_key_eq (a b : bsig) : bool :=
 Definition sigpool_add (l : list bsig) (s : bsig) : list bsig :=
   filter (fun t => negb (sig_key_eq t s)) l ++ [s].
 
+(* the part of InsertEvent after the checks: counter, coordinates, store, first descendants, queues *)
+Definition insert_admitted (st : hg) (e : event) : ins_result * hg :=
+  let st1 := st <| topo := st.(topo) + 1 |> in
+  let c := init_coords st1 e in
+  let es := mkEvst e None None None (fst c) (snd c) st.(topo) in
+  match store_set_event st1 es with
+  | None => (InsStore, st1)
+  | Some st2 =>
+    let st3 := update_ancestor_fd st2 e (fst c) in
+    let st4 := st3 <| undetermined := st3.(undetermined) ++ [e_id e] |> in
+    let st5 := if is_loaded e then st4 <| pending_loaded := st4.(pending_loaded) + 1 |> else st4 in
+    (InsOk, st5 <| sigpool := fold_left sigpool_add (e_sigs e) st5.(sigpool) |>)
+  end.
+
 Definition insert_event (st : hg) (e : event) : ins_result * hg :=
   if negb (e_sigok e) then (InsBadSig, st)
   else match check_self_parent st e with
   | InsOk =>
     match check_other_parent st e with
-    | InsOk =>
-      let st1 := st <| topo := st.(topo) + 1 |> in
-      let '(la, fd) := init_coords st1 e in
-      let es := mkEvst e None None None la fd st.(topo) in
-      match store_set_event st1 es with
-      | None => (InsStore, st1)
-      | Some st2 =>
-        let st3 := update_ancestor_fd st2 e la in
-        let st4 := st3 <| undetermined := st3.(undetermined) ++ [e_id e] |> in
-        let st5 := if is_loaded e then st4 <| pending_loaded := st4.(pending_loaded) + 1 |> else st4 in
-        (InsOk, st5 <| sigpool := fold_left sigpool_add (e_sigs e) st5.(sigpool) |>)
-      end
+    | InsOk => insert_admitted st e
     | r => (r, st)
     end
   | r => (r, st)
@@ -520,47 +532,54 @@ Fixpoint pending_insert (r : Z) (l : list (Z * bool)) : list (Z * bool) :=
 
 Definition fail (st : hg) : hg := st <| failed := true |>.
 
+Definition set_event_round (st : hg) (x r : Z) : hg :=
+  match get_event st x with
+  | Some ev => set_evst st x (ev <| ev_round := Some r |>)
+  | None => st
+  end.
+Definition set_event_lt (st : hg) (x t : Z) : hg :=
+  match get_event st x with
+  | Some ev => set_evst st x (ev <| ev_lt := Some t |>)
+  | None => st
+  end.
+Definition round_or_new (st : hg) (r : Z) : rinfo :=
+  match get_round st r with Some ri => ri | None => new_rinfo end.
+Definition maybe_queue (st : hg) (r : Z) (ri : rinfo) : hg :=
+  if negb (queued st r) && negb ri.(ri_decided) &&
+     (match st.(lower_bound) with None => true | Some lb => lb <? r end)
+  then st <| pending := pending_insert r st.(pending) |> else st.
+
+(* the "ev.round == nil" block of DivideRounds *)
+Definition divide_round (st : hg) (x : Z) : hg :=
+  match round_f (fuel_of st) st x with
+  | (None, s) => fail s
+  | (Some r, s) =>
+    let s1 := set_event_round s x r in
+    let ri := round_or_new s1 r in
+    let s2 := maybe_queue s1 r ri in
+    match witness_f (fuel_of s2) s2 x with
+    | (None, s') => fail s'
+    | (Some w, s') => set_round s' r (add_created ri x w)
+    end
+  end.
+
+(* the "ev.lamportTimestamp == nil" block *)
+Definition divide_lt (st : hg) (x : Z) : hg :=
+  match lamport_f (fuel_of st) st x with
+  | (None, s) => fail s
+  | (Some t, s) => set_event_lt s x t
+  end.
+
 Definition divide_one (st : hg) (x : Z) : hg :=
   if st.(failed) then st else
   match get_event st x with
   | None => fail st
   | Some ev =>
-    let st1 :=
-      match ev.(ev_round) with
-      | Some _ => st
-      | None =>
-        match round_f (fuel_of st) st x with
-        | (None, s) => fail s
-        | (Some r, s) =>
-          let s := match get_event s x with
-                   | Some ev' => set_evst s x (ev' <| ev_round := Some r |>)
-                   | None => s end in
-          let ri := match get_round s r with Some ri => ri | None => new_rinfo end in
-          let s := if negb (queued s r) && negb ri.(ri_decided) &&
-                      (match s.(lower_bound) with None => true | Some lb => lb <? r end)
-                   then s <| pending := pending_insert r s.(pending) |> else s in
-          match witness_f (fuel_of s) s x with
-          | (None, s') => fail s'
-          | (Some w, s') => set_round s' r (add_created ri x w)
-          end
-        end
-      end in
+    let st1 := match ev.(ev_round) with Some _ => st | None => divide_round st x end in
     if st1.(failed) then st1 else
     match get_event st1 x with
     | None => fail st1
-    | Some ev1 =>
-      match ev1.(ev_lt) with
-      | Some _ => st1
-      | None =>
-        match lamport_f (fuel_of st1) st1 x with
-        | (None, s) => fail s
-        | (Some t, s) =>
-          match get_event s x with
-          | Some ev' => set_evst s x (ev' <| ev_lt := Some t |>)
-          | None => s
-          end
-        end
-      end
+    | Some ev1 => match ev1.(ev_lt) with Some _ => st1 | None => divide_lt st1 x end
     end
   end.
 
@@ -862,9 +881,18 @@ Definition process_receipts (st : hg) (rr : Z) (itxs : list itx) : hg :=
     end
   else st.
 
+(* signBlock + selfBlockSignatures.Add, when the node belongs to the block's validator set *)
+Definition sign_block (st : hg) (b : block) (bps : peerset) : block * hg :=
+  if mem_key st.(self) (keys bps) then
+    let s := mkBsig st.(self) b.(b_index) b.(b_bodyid) in
+    let b2 := b <| b_sigs := aset st.(self) b.(b_bodyid) b.(b_sigs) |> in
+    (b2, (store_set_block st b2) <| self_sigs := sigpool_add st.(self_sigs) s |>)
+  else (b, st).
+
+Definition deliver (st : hg) (b : block) : hg := st <| delivered := st.(delivered) ++ [b] |>.
+
 Definition commit (st : hg) (b : block) : hg :=
-  if st.(self) =? -1 then                                   (* DummyInternalCommitCallback *)
-    st <| delivered := st.(delivered) ++ [b] |>
+  if st.(self) =? -1 then deliver st b                       (* DummyInternalCommitCallback *)
   else
     let bid := hd (-1) st.(oracle) in
     let st0 := st <| oracle := tl st.(oracle) |> in
@@ -872,20 +900,42 @@ Definition commit (st : hg) (b : block) : hg :=
                 <| b_bodyid := bid |> in
     let st1 := store_set_block st0 b1 in                     (* the stored block is the same object *)
     match get_peerset st1 b1.(b_rr) with
-    | None => st1 <| delivered := st1.(delivered) ++ [b1] |>
+    | None => deliver st1 b1
     | Some bps =>
-      let '(b2, st2) :=
-        if mem_key st1.(self) (keys bps) then
-          let s := mkBsig st1.(self) b1.(b_index) bid in
-          let b2 := b1 <| b_sigs := aset st1.(self) bid b1.(b_sigs) |> in
-          (b2, (store_set_block st1 b2) <| self_sigs := sigpool_add st1.(self_sigs) s |>)
-        else (b1, st1) in
-      let st3 := set_anchor_block st2 b2 in
-      let st4 := process_receipts st3 b2.(b_rr) b2.(b_itxs) in
-      st4 <| delivered := st4.(delivered) ++ [b2] |>
+      let bs := sign_block st1 b1 bps in
+      let st3 := set_anchor_block (snd bs) (fst bs) in
+      let st4 := process_receipts st3 (fst bs).(b_rr) (fst bs).(b_itxs) in
+      deliver st4 (fst bs)
     end.
 
 (** * ProcessDecidedRounds *)
+
+(* Store.AddConsensusEvent + counters, for one frame event *)
+Definition add_consensus_event (s : hg) (fe : frameev) : hg :=
+  let c := creator_of s (fe_id fe) in
+  let loaded := match get_event s (fe_id fe) with Some e => is_loaded e.(ev_e) | None => false end in
+  s <| cons_count := s.(cons_count) + 1 |>
+    <| last_cons_ev := aset c (fe_id fe) s.(last_cons_ev) |>
+    <| pending_loaded := if loaded then s.(pending_loaded) - 1 else s.(pending_loaded) |>.
+
+(* the "len(frame.Events) > 0" block *)
+Definition process_frame (s : hg) (f : frame) : hg :=
+  match f.(f_events) with
+  | [] => s
+  | _ =>
+    let s1 := fold_left add_consensus_event f.(f_events) s in
+    let b := block_of_frame (s1.(last_block) + 1) f s1 in
+    match b.(b_txs), b.(b_itxs) with
+    | [], [] => s1
+    | _, _ => commit (store_set_block s1 b) b
+    end
+  end.
+
+Definition bump_last_consensus (s : hg) (r : Z) : hg :=
+  match s.(last_consensus) with
+  | None => s <| last_consensus := Some r |>
+  | Some l => if l <? r then s <| last_consensus := Some r |> else s
+  end.
 
 Definition process_round (acc : hg * list Z * bool) (pr : Z * bool) : hg * list Z * bool :=
   let '(st, processed, stop) := acc in
@@ -897,29 +947,7 @@ Definition process_round (acc : hg * list Z * bool) (pr : Z * bool) : hg * list 
   | Some _ =>
     match get_frame st r with
     | (None, s) => (fail s, processed, true)
-    | (Some f, s) =>
-      let s1 :=
-        match f.(f_events) with
-        | [] => s
-        | _ =>
-          let s := fold_left (fun s fe =>
-                     let c := creator_of s (fe_id fe) in
-                     let loaded := match get_event s (fe_id fe) with Some e => is_loaded e.(ev_e) | None => false end in
-                     s <| cons_count := s.(cons_count) + 1 |>
-                       <| last_cons_ev := aset c (fe_id fe) s.(last_cons_ev) |>
-                       <| pending_loaded := if loaded then s.(pending_loaded) - 1 else s.(pending_loaded) |>)
-                   f.(f_events) s in
-          let b := block_of_frame (s.(last_block) + 1) f s in
-          match b.(b_txs), b.(b_itxs) with
-          | [], [] => s
-          | _, _ => commit (store_set_block s b) b
-          end
-        end in
-      let s2 := match s1.(last_consensus) with
-                | None => s1 <| last_consensus := Some r |>
-                | Some l => if l <? r then s1 <| last_consensus := Some r |> else s1
-                end in
-      (s2, processed ++ [r], false)
+    | (Some f, s) => (bump_last_consensus (process_frame s f) r, processed ++ [r], false)
     end
   end.
 
